@@ -91,6 +91,8 @@ pub struct ScriptBody {
     last_pending: bool,
     ended: bool,
     errored: bool,
+    /// the body announces its exact remaining length (a content-length) and its end
+    sized: bool,
     pub stats: Arc<BodyStats>,
     /// Offsets where a cut is "interesting" for the non-triviality rule (e.g. inside a prefix).
     pub marks: Arc<Vec<usize>>,
@@ -109,12 +111,18 @@ impl ScriptBody {
             last_pending: false,
             ended: false,
             errored: false,
+            sized: false,
             stats: Arc::new(BodyStats::default()),
             marks: Arc::new(vec![]),
         }
     }
     pub fn with_end(mut self, end: BodyEnd) -> Self {
         self.end = end;
+        self
+    }
+    /// Like a body that arrived with a content-length: exact `size_hint`, honest `is_end_stream`.
+    pub fn with_exact_size(mut self) -> Self {
+        self.sized = true;
         self
     }
     pub fn with_marks(mut self, marks: Vec<usize>) -> Self {
@@ -222,6 +230,18 @@ impl Body for ScriptBody {
         this.ended = true;
         Poll::Ready(None)
     }
+
+    fn is_end_stream(&self) -> bool {
+        self.sized && matches!(self.end, BodyEnd::Clean) && self.trailers.is_none() && self.pos >= self.data.len()
+    }
+
+    fn size_hint(&self) -> http_body::SizeHint {
+        if self.sized && matches!(self.end, BodyEnd::Clean) {
+            http_body::SizeHint::with_exact((self.data.len() - self.pos) as u64)
+        } else {
+            http_body::SizeHint::default()
+        }
+    }
 }
 
 /// One scripted item of a message source.
@@ -233,8 +253,12 @@ pub enum Item<T> {
 
 /// A `Stream<Item = Result<T, Status>>` that may answer `Pending` (a deviation) before any item
 /// and before the end.
+/// Chooser flag: scripted message sources of this execution report an exact `size_hint`.
+pub const EXACT_SIZE_HINT: &str = "cfg:exact-size-hint";
+
 pub struct ScriptStream<T> {
     items: std::collections::VecDeque<Item<T>>,
+    exact_hint: bool,
     ch: Chooser,
     allow_pending: bool,
     last_pending: bool,
@@ -247,6 +271,7 @@ impl<T> ScriptStream<T> {
     pub fn new(items: Vec<Item<T>>, allow_pending: bool, ch: &Chooser) -> Self {
         ScriptStream {
             items: items.into(),
+            exact_hint: ch.has_flag(EXACT_SIZE_HINT),
             ch: ch.clone(),
             allow_pending,
             last_pending: false,
@@ -287,6 +312,13 @@ impl<T: Unpin> Stream for ScriptStream<T> {
                 this.ended = true;
                 Poll::Ready(None)
             }
+        }
+    }
+    fn size_hint(&self) -> (usize, Option<usize>) {
+        if self.exact_hint {
+            (self.items.len(), Some(self.items.len()))
+        } else {
+            (0, None)
         }
     }
 }
@@ -388,4 +420,85 @@ pub fn fmt_status(s: &Status) -> String {
         hex(s.details()),
         fmt_headers(&s.metadata().clone().into_headers())
     )
+}
+
+// ---------------------------------------------------------------------------------------------
+// DATA frames whose `Buf` is not one contiguous slice
+
+/// A `Buf` made of several `Bytes` segments (what an adapter that chains leftover bytes in front
+/// of the next read hands over): `chunk()` only ever shows the first non-empty segment.
+#[derive(Debug, Clone)]
+pub struct SegBuf {
+    parts: std::collections::VecDeque<Bytes>,
+}
+
+impl SegBuf {
+    /// `segments` > 1 cuts the frame into that many nearly equal segments.
+    pub fn cut(b: Bytes, segments: usize) -> Self {
+        let mut parts = std::collections::VecDeque::new();
+        let n = b.len();
+        if segments <= 1 || n < 2 {
+            parts.push_back(b);
+        } else {
+            let k = segments.min(n);
+            let mut prev = 0;
+            for i in 1..=k {
+                let at = n * i / k;
+                parts.push_back(b.slice(prev..at));
+                prev = at;
+            }
+        }
+        SegBuf { parts }
+    }
+}
+
+impl bytes::Buf for SegBuf {
+    fn remaining(&self) -> usize {
+        self.parts.iter().map(|p| p.len()).sum()
+    }
+    fn chunk(&self) -> &[u8] {
+        self.parts.iter().find(|p| !p.is_empty()).map(|p| &p[..]).unwrap_or(&[])
+    }
+    fn advance(&mut self, mut cnt: usize) {
+        while cnt > 0 {
+            let front = self.parts.front_mut().expect("advance past the end of a SegBuf");
+            if front.len() <= cnt {
+                cnt -= front.len();
+                self.parts.pop_front();
+            } else {
+                bytes::Buf::advance(front, cnt);
+                cnt = 0;
+            }
+        }
+        while self.parts.front().map(|p| p.is_empty()).unwrap_or(false) {
+            self.parts.pop_front();
+        }
+    }
+}
+
+/// Body adapter: every DATA frame of the inner body is handed over as a `SegBuf` of `segments`
+/// segments (1 = contiguous, as hyper delivers them).
+pub struct Segmented<B> {
+    pub inner: B,
+    pub segments: usize,
+}
+
+impl<B: Body<Data = Bytes> + Unpin> Body for Segmented<B> {
+    type Data = SegBuf;
+    type Error = B::Error;
+    fn poll_frame(mut self: Pin<&mut Self>, cx: &mut Context<'_>) -> Poll<Option<Result<Frame<SegBuf>, B::Error>>> {
+        let segments = self.segments;
+        match Pin::new(&mut self.inner).poll_frame(cx) {
+            Poll::Pending => Poll::Pending,
+            Poll::Ready(None) => Poll::Ready(None),
+            Poll::Ready(Some(Err(e))) => Poll::Ready(Some(Err(e))),
+            Poll::Ready(Some(Ok(f))) => Poll::Ready(Some(Ok(f.map_data(|d| SegBuf::cut(d, segments))))),
+        }
+    }
+    fn is_end_stream(&self) -> bool {
+        self.inner.is_end_stream()
+    }
+    fn size_hint(&self) -> http_body::SizeHint {
+        self.inner.size_hint()
+    }
 }
